@@ -152,14 +152,18 @@ def gen_history(cat, prop, seed, h, tier):
             same = [i for i in dask_ids if i != a and ent[i][fkey] == ent[a][fkey]]
             b = rng.choice(same) if same else rng.choice([i for i in dask_ids if i != a])
             ops.append({"k": "joint", "e": [a, b]})
-        if "edit" not in kinds and twins_here:
-            a, b = rng.choice(twins_here)
+        # every twin pair in reach: call on A, edit A into B in place, call on B, edit back, call on A -
+        # same object identity throughout, other content (users of the same op preferred)
+        for a, b in twins_here:
             users_a = [i for i in ids_all if a in ent[i]["rasters"] and not ent[i]["heavy"] and ent[i]["backend"] == "numpy"]
             users_b = [i for i in ids_all if b in ent[i]["rasters"] and not ent[i]["heavy"] and ent[i]["backend"] == "numpy"]
-            if users_a and users_b:
-                ops.append({"k": "call", "e": rng.choice(users_a)})
-                ops.append({"k": "edit", "a": a, "b": b})
-                ops.append({"k": "call", "e": rng.choice(users_b)})
+            if not (users_a and users_b):
+                continue
+            ub = rng.choice(users_b)
+            same_op = [i for i in users_a if ent[i]["op"] == ent[ub]["op"]]
+            ua = rng.choice(same_op) if same_op else rng.choice(users_a)
+            ops += [{"k": "call", "e": ua}, {"k": "edit", "a": a, "b": b}, {"k": "call", "e": ub},
+                    {"k": "edit", "a": b, "b": a}, {"k": "call", "e": ua}]
     return {"h": h, "mode": rng.choice(["shared", "shared", "fresh"]),
             "threads": rng.choice([1, 2, 16]), "ops": ops, "families": chosen,
             "sched_seed": util.derive_seed(seed, prop, "hist-sched", h)}
